@@ -281,7 +281,8 @@ def work_alive(chunk):
             r = LogRule(n=n, method=m, order=o)
             alone[(m, n, o)] = (np.asarray(r.rule(ratio)).tobytes(), r.method_order, r.richardson_step)
         fw.fresh_library_state()
-        objs = [(c, LogRule(n=c[1], method=c[0], order=c[2])) for c in cfgs]
+        # the objects kept alive are built with numpy integers for n and order (same rule as with Python ints)
+        objs = [(c, LogRule(n=np.int64(c[1]), method=c[0], order=np.int32(c[2]))) for c in cfgs]
         for c, r in objs + objs[::-1]:
             got = (np.asarray(r.rule(ratio)).tobytes(), r.method_order, r.richardson_step)
             same = got == alone[c]
